@@ -52,6 +52,9 @@ checks = {
  "C19": (MC, "apienum", "exhaustive product of per-parameter domains for every API method in 9 reachable wallet states, under recover, plus malformed relays",
    "For each of 9 reachable wallet states and each of the 28 request-taking API methods the full product of small per-field domains (derived from the request type by reflection, largest domains trimmed only above the cap) is executed on the real APIServer over the real wallet under recover() with FATAL trapping, followed by a follower liveness probe; 12 malformed relayed transactions per state go to the follower entry point.",
    "§5 C19"),
+ "C20": (MC, "schedexplore", "stateless DFS with iterative preemption bounding over a cooperative controlled scheduler on the instrumented real follower/worker/stop code",
+   "The real NtfnsHandler (handle, worker, suspend/resume, task queue, Stop) is rebuilt with every sync primitive, goroutine start and channel operation routed through a controlled scheduler (source overlay generated from the current tree). For 11 scenarios (import or removal started by an API thread or resumed from a restart, 0-2 tips announced by a node thread, with and without a concurrent stop request) every schedule with at most the stated number of preemptions runs to completion on a fresh real wallet; each execution is checked for deadlock, abnormal thread end, livelock, stop returning with the database closed exactly once, and (without stop) for every announced tip processed, the accepted task finished and the ledger equal to the reference.",
+   "§5 C20"),
  "C13": (MC, "enum", "bounded-exhaustive input enumeration against an independent BIP-39 reference",
    "Input-bounded model checking: every member of the described entropy / word-sequence families is run through the real mnemonic code and compared with an independent reference validated against BIP-39 vectors.", "§5 C13"),
  "C14": (MC, "enum", "bounded-exhaustive (seed x path) and corruption enumeration against an independent BIP-32 reference",
@@ -85,6 +88,8 @@ m = {
    "kind_free_text": "request-product enumeration per (UTXO shape, family) with reference-ledger oracle, executed by the histbfs parent"},
   {"name": "dbmodel", "path": "harness/models/c11", "serves_properties": ["C11"],
    "kind_free_text": "reference nested-map model of the wallet database + full read-back oracle, explored by the histbfs parent"},
+  {"name": "schedexplore", "path": "harness/instr/shim.go.txt harness/cmd/vinstr harness/sched harness/cmd/vcheck/instr.go", "serves_properties": [k for k, v in checks.items() if v[1] == "schedexplore"],
+   "kind_free_text": "source-overlay instrumentation (sync -> shim, go/close/send/recv/select rewritten by go/ast) + cooperative scheduler + preemption-bounded stateless DFS with replay-determinism self-test, sharded by first deviation over worker processes"},
   {"name": "enum", "path": "harness/enum", "serves_properties": [k for k, v in checks.items() if v[1] == "enum"],
    "kind_free_text": "bounded-exhaustive enumeration of described finite input families against independent references, sharded over 16 worker processes"},
  ],
